@@ -252,8 +252,12 @@ def prove_all(cfile_for, groups, workdir, jobs=16, log=print):
                 macro, values = g.cases
                 for i, v in enumerate(values):
                     gi = copy.copy(g)
-                    gi.name = '%s[%s=%s]' % (g.name, macro, v)
-                    gi.defines = tuple(g.defines) + ('%s=%s' % (macro, v),)
+                    if isinstance(v, tuple):
+                        gi.name = '%s[%s]' % (g.name, ','.join(v))
+                        gi.defines = tuple(g.defines) + tuple(v)
+                    else:
+                        gi.name = '%s[%s=%s]' % (g.name, macro, v)
+                        gi.defines = tuple(g.defines) + ('%s=%s' % (macro, v),)
                     gi.cases = None
                     gi.canary = g.canary and i == 0
                     expanded.append(gi)
